@@ -62,8 +62,9 @@ def build_kwargs(step, G, shared, family):
         use = [u for u in use if u in ("solver_options", "elements_to_ignore", "error_scaling")]
         if step.get("eps") is not None:
             kw["few_flow_values_epsilon"] = step["eps"]  # two-stage solve: the model is replaced between the stages
-    if step.get("threads") is not None and "solver_options" not in use:
-        kw["solver_options"] = {"threads": step["threads"], "time_limit": 60}
+    if "solver_options" not in use:
+        # a private (not shared) dict; always with a time limit, so that no single model can stall a history
+        kw["solver_options"] = {"threads": step.get("threads") or 1, "time_limit": 25}
     if "optimization_options" in use:
         kw["optimization_options"] = shared["optimization_options"]
     if "solver_options" in use:
@@ -77,10 +78,24 @@ def build_kwargs(step, G, shared, family):
     return kw
 
 
+def _hit_time_limit(model):
+    from ..models import model_status
+
+    for m in (model, getattr(model, "fd_model", None), getattr(model, "model", None)):
+        if m is not None:
+            try:
+                if model_status(m) in ("kTimeLimit", "kInterrupt", "kIterationLimit"):
+                    return True
+            except Exception:
+                pass
+    return False
+
+
 def summarize(model, cls):
     solved = bool(model.is_solved())
     if not solved:
-        return {"solved": False}
+        # a run that gave up on the clock is timing dependent by nature: never compared
+        return {"solved": False, "time_limit": True} if _hit_time_limit(model) else {"solved": False}
     sol = model.get_solution()
     if cls == "MinErrorFlow":
         return {"solved": True, "objective": round(float(sol["error"]), 6)}
@@ -137,7 +152,7 @@ def materialize_shared(sh):
     out = {}
     out["optimization_options"] = dict(sh.get("optimization_options") or {})
     # fixed values (not part of the shrinkable case: a shrunk time limit would make results timing dependent)
-    out["solver_options"] = {"threads": 1, "time_limit": 60}
+    out["solver_options"] = {"threads": 1, "time_limit": 25}
     out["constraints"] = [[tuple(e) for e in c] for c in sh["constraints"]] if sh.get("constraints") is not None else None
     out["elements_to_ignore"] = [tuple(e) for e in sh["elements_to_ignore"]] if sh.get("elements_to_ignore") is not None else None
     out["error_scaling"] = {tuple(e): s for e, s in sh["error_scaling"]} if sh.get("error_scaling") is not None else None
@@ -234,12 +249,18 @@ class Interp:
             except BaseException as e:  # noqa: BLE001
                 self.bad = ("repeat_call_crash", f"{cls}: second solve()/getters raised {type(e).__name__}: {e}")
                 return
+            if any(isinstance(x, dict) and x.get("time_limit") for x in (res, res2, res3)):
+                self.flags["time_limit"] = self.flags.get("time_limit", 0) + 1
+                return
             if res2 != res or res3 != res:
                 self.bad = ("not_repeatable", f"{cls}: first {res}, after a second solve() {res2}, getters again {res3}")
                 return
         ref = reference_result(self.case, step)
         if "harness_error" in ref:
             self.flags["harness_error"] = ref["harness_error"]
+            return
+        if (isinstance(ref, dict) and ref.get("time_limit")) or (isinstance(res, dict) and res.get("time_limit")):
+            self.flags["time_limit"] = self.flags.get("time_limit", 0) + 1
             return
         if ref != res:
             self.bad = ("history_dependent", f"step {self.flags['steps']} ({cls}, passing {step.get('use')}): result {res} in this history, {ref} in a pristine interpreter with copied arguments")
@@ -286,9 +307,12 @@ def instances(draw, tier):
     opts = {}
     for f in draw(st.lists(st.sampled_from(flags), max_size=3, unique=True)):
         opts[f] = draw(st.booleans())
+    if draw(st.integers(0, 2)) == 0:
+        # options that make a minimum search build auxiliary models from the caller's dict (lower bounds, guessed weights)
+        opts[draw(st.sampled_from(["use_subgraph_scanning_lowerbound", "use_min_gen_set_lowerbound", "optimize_with_guessed_weights"]))] = True
     if opts.get("optimize_with_safe_paths") and opts.get("optimize_with_safe_sequences"):
         opts.pop("optimize_with_safe_sequences")
-    if not kw.get("error_scaling") and draw(st.integers(0, 3)) > 0:
+    if not kw.get("error_scaling") and draw(st.integers(0, 2)) > 0:
         # an error scale factor (0 = "treat as ignored") on one weighted edge: shared by every class that takes scalings
         es = [[u, v] for u, v, d in case["graph"]["edges"] if "flow" in d]
         if es:
